@@ -337,12 +337,16 @@ class MindsDBLexer(Lexer):
 
     @_(r"'(?:\\.|[^'])*(?:''(?:\\.|[^'])*)*'")
     def QUOTE_STRING(self, t):
-        t.value = decoded(t.value.replace('\\"', '"').replace("\\'", "'").replace("''", "'"), t.value)
+        # un-escape between the delimiters only: a quote next to a delimiter is part of the value
+        #   (in one pass: the result of one replacement must not take part in the next one)
+        body = re.sub(r"""\\(['"])|''""", lambda m: m.group(1) or "'", t.value[1:-1])
+        t.value = decoded(t.value[0] + body + t.value[-1], t.value)
         return t
 
     @_(r'"(?:\\.|[^"])*"')
     def DQUOTE_STRING(self, t):
-        t.value = decoded(t.value.replace('\\"', '"').replace("\\'", "'"), t.value)
+        body = re.sub(r"""\\(['"])""", r'\1', t.value[1:-1])
+        t.value = decoded(t.value[0] + body + t.value[-1], t.value)
         return t
 
     @_(r'\n+')
